@@ -85,7 +85,8 @@ fn run_op(op: &Op, inject: &[Hex]) -> Result<(BigUint, Vec<BigUint>), Fail> {
     }
     let name = format!("{:?}", op.kind);
     let msg = expand_bytes(op.seed, 1 + (op.seed % 60) as usize);
-    let id = expand_bytes(op.seed ^ 0x1d, 1 + (op.seed % 12) as usize);
+    // identities of 1..12 bytes, and (one in three) of 33..132 bytes: longer than a hash block half / a hash block
+    let id = expand_bytes(op.seed ^ 0x1d, if op.seed % 3 == 0 { 33 + (op.seed / 3 % 100) as usize } else { 1 + (op.seed % 12) as usize });
     let n2 = &r2::params().n;
     // each arm returns the scalar proven by the operation's public output
     let res: Result<Result<BigUint, String>, String> = catch(|| -> Result<BigUint, String> {
